@@ -5,7 +5,11 @@ PID = "C18"
 ZOO = "legacy"
 
 
-def classify_line(ln, outcome, clause):
+def classify_line(ln, outcome, clause, mv=None):
+    """known iff the state is exactly what Legacy.tla (the documented algorithm) predicts (mv: the machine's verdict
+    on this transition; None for operations the machine does not model) and it has the shape of id-twin-nested"""
+    if mv is not None and not mv["conform"]:
+        return None
     return legacy.finding_id_twin_nested(ln, outcome, clause)
 
 
